@@ -96,7 +96,7 @@ def c01_unescape_instability(case, observed, expected):
     if d.get("what") != "prop":
         return False
     a, b = d.get("a"), d.get("b")
-    if not (isinstance(a, list) and isinstance(b, list) and len(a) == 4 and len(b) == 4):
+    if not (isinstance(a, list) and isinstance(b, list) and len(a) == len(b) and len(a) in (4, 5)):
         return False
     if a[0] != b[0] or a[1] != b[1]:
         return False
@@ -138,3 +138,10 @@ def c13_known_class(case, observed, expected):
 
 def c13_apia_dateutil(case, observed, expected):
     return case.get("tzid") == "Pacific/Apia" and case.get("exc") == "ValueError"
+
+
+def c12_cross_order(case, observed, expected):
+    """pytz provider, a definition whose onsets are ordered differently in local time and in UTC (zone family A/B/C of
+    MC_VTimezone!CrossZones), and the object answered exactly what the get_transitions + bisect mirror answers"""
+    z = case.get("zone") or []
+    return (case.get("provider") == "pytz" and [o["name"] for o in z] == ["A", "B", "C"] and bool(case.get("impl_equal")))
